@@ -464,7 +464,7 @@ def duo(shard, c0, c1, rev, choices, kill_at=None):
             en = w.enabled()
             if not en:
                 break
-            if len(en) > 1 and ci < 3:
+            if len(en) > 1 and ci < shard.get("K1", 3):
                 c = pick(choices[ci], len(en))
                 ci += 1
             else:
